@@ -1,6 +1,35 @@
 package broker
 
-import "verifharness/internal/rt"
+import (
+	"fmt"
 
-// c07Concurrent is implemented with the C04 machinery (marker nodes + linearizability).
-func c07Concurrent(run *rt.Run, r *rt.Rand) {}
+	"verifharness/internal/rt"
+)
+
+// c07Concurrent: one or two goroutines overwrite (t0,p0) v1->v2->...->vn while 2..6
+// senders run. The key is continuously present, so every Send must be processed by
+// exactly one version (never none, never two) and the register must be linearizable
+// (only the new version once the overwriting call has returned).
+func c07Concurrent(run *rt.Run, r *rt.Rand) {
+	nh := run.N(180, 6000)
+	for i := 0; i < nh && !run.Stop(); i++ {
+		cr := r.Fork()
+		nover, nsenders, nops := cr.Range(1, 2), cr.Range(2, 6), cr.Range(40, 150)
+		run.Progress("C07 concurrent %d overwriters=%d senders=%d ops=%d", i, nover, nsenders, nops)
+		w, desc := runConcHistory(run, cr, nover, nsenders, nops, 0, true, true)
+		wit := func() any { return desc }
+		w.analyse(run, wit)
+		// never neither: the key is present from before the first Send
+		w.h.mu.Lock()
+		for _, o := range w.h.ops {
+			if o.Kind == "send" && len(w.h.marks[o.SendID]) == 0 {
+				run.Violation("history-pattern:no-version", fmt.Sprintf("Send %s was processed by no version of a pipeline that was registered throughout", o.SendID), wit())
+				break
+			}
+		}
+		nops2 := len(w.h.ops)
+		w.h.mu.Unlock()
+		run.Add("concurrent_recorded_calls", nops2)
+		run.Eval(fmt.Sprintf("conc|%v|%d", desc, nops2))
+	}
+}
